@@ -15,17 +15,21 @@ Proof.
   apply andb_true_iff in H as [H1 H2]. apply stmt_eqb_eq in H1. apply IH in H2. congruence.
 Qed.
 
-Lemma toy_ok : analysis_ok toyA.
+Lemma toy_ok_of ind : analysis_ok (toyA_of ind).
 Proof.
   constructor.
   - exact stmts_eqb_eq.
   - intros a b Ha Hb. cbn in a, b, Ha, Hb. destruct a; [|discriminate]. destruct b; [reflexivity|discriminate].
-  - intros t i Hi. cbn [first toyA] in Hi. unfold toy_first in Hi. rewrite !in_app_iff in Hi. destruct Hi as [Hi|[Hi|Hi]].
+  - intros t i Hi. cbn [first toyA_of] in Hi. unfold toy_first in Hi. rewrite !in_app_iff in Hi. destruct Hi as [Hi|[Hi|Hi]].
     + apply in_map_iff in Hi as [e [<- He]]. unfold toy_syn in He. apply in_flat_map in He as [p [_ Hp]].
       destruct (snd p); try (destruct Hp; fail). destruct Hp as [<-|[]]. cbn. discriminate.
     + apply in_flat_map in Hi as [p [_ Hp]]. destruct (snd p); try (destruct Hp; fail). destruct Hp as [<-|[]]. reflexivity.
     + apply in_flat_map in Hi as [p [_ Hp]]. destruct (snd p); try (destruct Hp; fail). destruct Hp as [<-|[]]. cbn. discriminate.
 Qed.
+Lemma toy_ok : analysis_ok toyA.
+Proof. exact (toy_ok_of toy_in_dir). Qed.
+Lemma toy_all_ok : analysis_ok toyA_all.
+Proof. exact (toy_ok_of toy_all_in). Qed.
 
 (* a guarded toy history meets the property at every file (instance of the guarded theorem) *)
 From Coq Require Import Permutation.
@@ -35,3 +39,63 @@ Definition toy_meets (fx : fixes) (dk : amap (list stmt)) (h : list (action toyA
   forall f, Permutation (view (snd (run toyA fx dk h)) f) (demanded toyA fx (fst (run toyA fx dk h)) f).
 Lemma toy_meets_of_guard fx dk h : guard toyA fx dk h = true -> toy_meets fx dk h.
 Proof. intros H. split; [exact H|]. apply (guarded_view toyA fx toy_ok dk h H). Qed.
+
+(* ---- annotation types (check 18): the project-wide type table after a notification that names deletions only
+        (regression on the seeded change C08-5: "HandleFileEventChanges no longer rebuilds createTypeMap at its end") ---- *)
+Import ListNotations.
+(* a.lua `---@class T1`, b.lua `---@type T1`: the watcher reports the deletion of a.lua (nothing else in the batch) *)
+Definition w_ann_dk : amap (list stmt) := [(0, [SK 1]); (1, [ST 1])].
+Definition w_ann : list (action toyA) := [AWatched [WD 0]].
+Lemma ann_deleted_meets :
+  toy_meets deployed w_ann_dk w_ann /\
+  view (snd (run toyA deployed w_ann_dk [])) 1 = [] /\
+  view (snd (run toyA deployed w_ann_dk w_ann)) 1 = [(18, 0, 11)].
+Proof. split; [apply toy_meets_of_guard|]; vm_compute; repeat split; reflexivity. Qed.
+(* a second declaration of the class in b.lua: both files carry the duplicate warning until a.lua is deleted *)
+Definition w_dup_dk : amap (list stmt) := [(0, [SK 1]); (1, [SK 1; ST 1; ST 2])].
+Lemma ann_duplicate_meets :
+  toy_meets deployed w_dup_dk w_ann /\
+  view (snd (run toyA deployed w_dup_dk [])) 0 = [(18, 0, 21)] /\
+  view (snd (run toyA deployed w_dup_dk [])) 1 = [(18, 2, 12); (18, 0, 21)] /\
+  view (snd (run toyA deployed w_dup_dk w_ann)) 0 = [] /\
+  view (snd (run toyA deployed w_dup_dk w_ann)) 1 = [(18, 2, 12)].
+Proof. split; [apply toy_meets_of_guard|]; vm_compute; repeat split; reflexivity. Qed.
+(* the declaring document p.lua lies outside the workspace: it takes part exactly while it is open (didClose = deletion) *)
+Definition w_ann_out_dk : amap (list stmt) := [(0, [ST 1]); (4, [SK 1])].
+Definition w_ann_out : list (action toyA) := [AOpen 4; AClose 4].
+Lemma ann_outside_meets :
+  toy_meets deployed w_ann_out_dk w_ann_out /\
+  view (snd (run toyA deployed w_ann_out_dk [])) 0 = [(18, 0, 11)] /\
+  view (snd (run toyA deployed w_ann_out_dk [AOpen 4])) 0 = [] /\
+  view (snd (run toyA deployed w_ann_out_dk w_ann_out)) 0 = [(18, 0, 11)].
+Proof. split; [apply toy_meets_of_guard|]; vm_compute; repeat split; reflexivity. Qed.
+
+(* ---- DirManager.IsInDir (findings indir_empty_plugin_path / indir_subdir_prefix, repaired) ---- *)
+Definition toy_meets_of (ind : file -> bool) (fx : fixes) (dk : amap (list stmt)) (h : list (action (toyA_of ind))) : Prop :=
+  guard (toyA_of ind) fx dk h = true /\
+  forall f, Permutation (view (snd (run (toyA_of ind) fx dk h)) f)
+                        (demanded (toyA_of ind) fx (fst (run (toyA_of ind) fx dk h)) f).
+Lemma toy_meets_of_guard_of ind fx dk h : guard (toyA_of ind) fx dk h = true -> toy_meets_of ind fx dk h.
+Proof. intros H. split; [exact H|]. apply (guarded_view (toyA_of ind) fx (toy_ok_of ind) dk h H). Qed.
+
+(* a.lua `print(g1)`, p.lua (outside the workspace) `g1 = 1` + a syntax error: the document is opened and closed. Whether or
+   not the client sent a PluginPath, IsInDir(p.lua) is false: p.lua leaves the project, its diagnostics are cleared, a.lua
+   gets "var not define: g1" back *)
+Definition w_indir_dk : amap (list stmt) := [(0, [SU 1]); (4, [SD 1; SS])].
+Definition w_indir : list (action toyA) := [AOpen 4; AClose 4].
+Lemma indir_single_root_meets :
+  toy_meets deployed w_indir_dk w_indir /\
+  view (snd (run toyA deployed w_indir_dk [AOpen 4])) 0 = [] /\
+  view (snd (run toyA deployed w_indir_dk [AOpen 4])) 4 = [(1, 1, 0)] /\
+  view (snd (run toyA deployed w_indir_dk w_indir)) 0 = [(2, 0, 1)] /\
+  view (snd (run toyA deployed w_indir_dk w_indir)) 4 = [].
+Proof. split; [apply toy_meets_of_guard|]; vm_compute; repeat split; reflexivity. Qed.
+(* the same files in a two-folder workspace (p.lua lies in the second folder): IsInDir(p.lua) is true, opening and closing
+   the document changes nothing - p.lua stays a project file *)
+Definition w_indir_all : list (action toyA_all) := [AOpen 4; AClose 4].
+Lemma indir_multi_root_meets :
+  toy_meets_of toy_all_in deployed w_indir_dk w_indir_all /\
+  view (snd (run toyA_all deployed w_indir_dk [])) 4 = [(1, 1, 0)] /\
+  view (snd (run toyA_all deployed w_indir_dk w_indir_all)) 0 = [] /\
+  view (snd (run toyA_all deployed w_indir_dk w_indir_all)) 4 = [(1, 1, 0)].
+Proof. split; [apply toy_meets_of_guard_of|]; vm_compute; repeat split; reflexivity. Qed.
